@@ -3,7 +3,7 @@ CONSTANTS
   Procs = {1, 2, 3}
   Iter = 2
   Nest = 2
-  ExchangeAcquire = FALSE
+  ExchangeAcquire = TRUE
   FreeAfterRelease = FALSE
 INVARIANT Safe
 INVARIANT MutualExclusion
